@@ -86,6 +86,48 @@ func checkC13(ctx *Ctx) {
 	})
 	ctx.Count("programs_exhaustive", int64(jobs))
 
+	// count/index sweep: every reader that takes a count, an index or a limit, for every value in -8..8, on
+	// collections of 1..6 elements (a reader must not change its operand whatever the count is)
+	{
+		sizes := []int{1, 2, 3, 5, 6}
+		type sweep struct{ tpl []string }
+		sweeps := [][]string{
+			{"ZRANDMEMBER", "z", "#"}, {"ZRANDMEMBER", "z", "#", "WITHSCORES"}, {"SRANDMEMBER", "s", "#"}, {"HRANDFIELD", "h", "#"}, {"HRANDFIELD", "h", "#", "WITHVALUES"},
+			{"LRANGE", "l", "#", "-1"}, {"LRANGE", "l", "0", "#"}, {"LINDEX", "l", "#"}, {"GETRANGE", "str", "#", "3"}, {"GETRANGE", "str", "1", "#"},
+			{"ZRANGE", "z", "#", "10"}, {"ZRANGE", "z", "-inf", "+inf", "LIMIT", "0", "#"}, {"ZRANGE", "z", "-inf", "+inf", "LIMIT", "#", "2"}, {"ZRANGE", "z", "0", "#", "REV"},
+			{"ZCOUNT", "z", "#", "3"}, {"ZRANK", "z", "m1"}, {"ZREVRANK", "z", "m2"}, {"SINTERCARD", "s", "s2", "LIMIT", "#"}, {"ZMSCORE", "z", "m1", "nope"},
+		}
+		total := 0
+		for _, n := range sizes {
+			for _, sw := range sweeps {
+				for c := -8; c <= 8; c++ {
+					n, sw, c := n, sw, c
+					total++
+					in := lightInst()
+					var init [][]string
+					for i := 1; i <= n; i++ {
+						m := fmt.Sprintf("m%d", i)
+						init = append(init, []string{"ZADD", "z", fmt.Sprint(i % 3), m}, []string{"SADD", "s", m}, []string{"SADD", "s2", m}, []string{"HSET", "h", m, "v"}, []string{"RPUSH", "l", m})
+					}
+					init = append(init, []string{"SET", "str", "abcdef"})
+					for _, cmd := range init {
+						in.Do(cmd...)
+					}
+					argv := make([]string, len(sw))
+					for i, a := range sw {
+						if a == "#" {
+							a = fmt.Sprint(c)
+						}
+						argv[i] = a
+					}
+					c13Step(ctx, "sweep", in, ro, argv, toSteps(init))
+					in.Close()
+				}
+			}
+		}
+		ctx.Count("programs_sweep", int64(total))
+	}
+
 	// random programs with expired-but-present keys, malformed arguments, wrong types
 	gens := allGens()
 	n := ctx.N(500, 10000)
